@@ -3,7 +3,6 @@ package interp
 import (
 	"go/token"
 	"go/types"
-	"math/big"
 )
 
 // PROTOTYPE native model of time.Time: structure{wall=nsec (0..1e9-1, no monotonic bit), ext=seconds since year 1, loc}.
@@ -55,22 +54,17 @@ func mkTime(nsec, sec, loc value) value {
 	return structure{conv(types.Typ[types.Uint64], types.Typ[types.Int64], nsec), sec, loc}
 }
 
-var nowCounter int
 var lastNow *Term
-var lastNowPath int
 
 func timeSummary(fr *frame, name string, args []value) (value, bool) {
+	if v, ok := vtimeSummary(fr, frFn(fr, name), name, args); ok {
+		return v, true
+	}
 	switch name {
 	case "time.Unix":
 		return mkTime(args[1], tAdd(args[0], int64(unixToInternal)), (*value)(nil)), true
 	case "time.Now":
-		v := EX.nondet("time.Now", types.Int64).(sym)
-		varRange[v.t.Name] = [2]*big.Int{big.NewInt(1_600_000_000), big.NewInt(1_700_000_000)}
-		EX.pc = append(EX.pc, mkAnd(mk("bvsge", 0, v.t, &Term{Op: "const", W: 64, C: 1_600_000_000, S: true}), mk("bvsle", 0, v.t, &Term{Op: "const", W: 64, C: 1_700_000_000, S: true})))
-		if lastNow != nil && lastNowPath == EX.Paths {
-			EX.pc = append(EX.pc, mk("bvsge", 0, v.t, lastNow))
-		}
-		lastNow, lastNowPath = v.t, EX.Paths
+		v := clockRead(nil)
 		return mkTime(int64(0), tAdd(v, int64(unixToInternal)), (*value)(nil)), true
 	case "(time.Time).Add":
 		n, s, l := timeParts(args[0])
